@@ -14,7 +14,8 @@ pub fn run(out: &mut Out, thorough: bool, seed: u64, _extra: &[String]) {
     let programs = if thorough { 300 } else { 20 };
     for pi in 0..programs {
         let scheme = if pi % 2 == 0 { SchemeType::BFV } else { SchemeType::BGV };
-        let s = match setup(&mut r, thorough, scheme) { Some(s) => s, None => continue };
+        // the first two programs run on the wide-plain-modulus family (t > 2^32), the rest on whatever `setup` draws
+        let s = match if pi < 2 { setup_wide_t(&mut r, thorough, scheme) } else { setup(&mut r, thorough, scheme) } { Some(s) => s, None => continue };
         let mut prog = Prog::new(&s, &mut r, 3);
         // fresh budgets (public-key and secret-key encryptions made by Prog::new)
         for it in &prog.pool {
